@@ -76,6 +76,9 @@ def stages(tier, rng, only=None):
         all_schemes=True, namings=["ints", "letters"]), _nt))
     out.append(ac.stage("larger", PID, lambda: ac.cases([ac.larger_dataset(rng) for _ in range(n_rand // 4)], cfgs, FAM,
                                                         flags=(0,), namings=["ints", "letters", "big"]), _nt))
+    near = FAM + [([0, 4, 3, 0, 4, 3], [3, 3, 0, 3, 3, 0], 4), ([0, 4, 3, 0, 0, 0], [3, 3, 0, 0, 0, 0], 4), ac.P_PSE1]
+    out.append(ac.stage("microscopic_penalties", PID, lambda: ac.scaled_cases(
+        grids.datasets(3, 2)[::2], cfgs, near, 40, flags=(0,)), _nt))
     out.append(ac.stage("equal_means", PID, lambda: ac.cases(equal_means(rng, n_rand // 2), cfgs, FAM, flags=(0,),
                                                              all_schemes=True, namings=["ints", "letters"]), _nt))
     if tier == "thorough":
